@@ -22,6 +22,11 @@ def run(tier, rep):
     rep.add_tlc("MC_Eval(collide: identical declarations, cache on = cache off)", r)
     if not vlib.tlc_ok(r, "MC_Eval"):
         raise vlib.Inconclusive("the Eval model violates %s: specification problem" % r.violated)
+    c2 = dict(consts, Family='"ietwin"', M="4", DocN="1")
+    r = vlib.tlc("MC_Eval", "MC_Eval.cfg", consts=c2, timeout=3000)
+    rep.add_tlc("MC_Eval(ietwin: declarations differing only in ignore_error)", r)
+    if not vlib.tlc_ok(r, "MC_Eval"):
+        raise vlib.Inconclusive("the Eval model violates %s: specification problem" % r.violated)
     if thorough:
         consts.update(Family='"all"', M="3")
         r = vlib.tlc("MC_Eval", "MC_Eval.cfg", consts=consts, timeout=3000, workers=4)
